@@ -51,6 +51,16 @@ M = [
 ]
 
 
+# survivors that were analysed and found not to break the property they were aimed at
+EQUIV = {
+ "M03": "the sweep picks a promise up one tick after its deadline instead of at it; lazy paths already report it timed out at the deadline and completedOn stays = timeout: no property is broken while the clock moves",
+ "M06": "a schedule fires one tick after the occurrence instead of at it (never before): allowed",
+ "M15": "the lease sweep acts one tick later: a lease is never cut short",
+ "M24": "at the tick equal to the task's timeout the sweep re-initialises the task and the next dispatch cycle times it out: one cycle later, no illegal edge",
+ "M05/C05": "a duplicate registration now fails with the UNIQUE(callbacks.id) error (caught by C16 as an unexpected batch error); no wake-up is lost",
+}
+
+
 def sh(cmd, cwd, timeout=3000):
     r = subprocess.run(cmd, shell=True, cwd=cwd, env=ENV, capture_output=True, text=True, timeout=timeout)
     return r.returncode, r.stdout + r.stderr
@@ -131,7 +141,9 @@ def main():
         props = props_for_commit(h)
         if props:
             ms.append(("R-" + h, props, "REVERT", h, "", None, "revert of " + s))
-    if args:
+    if args == ["--md"]:
+        ms = []
+    elif args:
         ms = [m for m in ms if m[0] in args]
     os.makedirs("/verif/seeded-own", exist_ok=True)
     rp = "/verif/seeded-own/results.json"
@@ -152,7 +164,8 @@ def main():
             for p, v in r["results"].items():
                 t += 1
                 k += 1 if v["killed"] else 0
-                cells.append("%s: %s" % (p, ("caught `%s`" % v["signatures"][0][:70].replace("|", "\\|")) if v["killed"] else ("CHECK-BROKEN" if v["check_broken"] else "**survived**")))
+                note = EQUIV.get(mid) or EQUIV.get(mid + "/" + p)
+                cells.append("%s: %s" % (p, ("caught `%s`" % v["signatures"][0][:70].replace("|", "\\|")) if v["killed"] else ("CHECK-BROKEN" if v["check_broken"] else ("survived — equivalent: " + note if note else "**survived**"))))
             fh.write("| %s | %s | %s |\n" % (mid, r["description"].replace("|", "\\|"), "; ".join(cells)))
         fh.write("\n%d of %d (mutant, property) pairs caught.\n" % (k, t))
 
